@@ -59,8 +59,23 @@ def reach_rule(ctx, db, flags):
         raise Broken('only %d entry functions emitted by the core driver (expected > 250): the driver no longer instantiates the core' % len(entries))
     seen, sites, parent, cut = irreach.reach(mod, entries, bnd)
     ctx.paths(rid, len(seen))
-    bad = {x: s for x, s in sites.items() if not ALLOWED_ALLOC.search(mod.head(x))}
-    ok_sites = {x: s for x, s in sites.items() if ALLOWED_ALLOC.search(mod.head(x))}
+    rev = {}
+    for n, d in mod.defs.items():
+        for c in d['calls']:
+            rev.setdefault(c, set()).add(n)
+
+    def allowed(x, depth=3, seen_=None):
+        """the growth path itself, or a helper all of whose callers (transitively) are the growth path"""
+        if ALLOWED_ALLOC.search(mod.head(x)):
+            return True
+        seen_ = seen_ or set()
+        if depth == 0 or x in seen_ or not re.search(r'cocls::suspend_point<void>::', mod.head(x)):
+            return False
+        seen_.add(x)
+        cs = rev.get(x, set())
+        return bool(cs) and all(allowed(c, depth - 1, seen_) for c in cs)
+    bad = {x: s for x, s in sites.items() if not allowed(x)}
+    ok_sites = {x: s for x, s in sites.items() if allowed(x)}
     for x, s in sorted(bad.items(), key=lambda kv: mod.head(kv[0])):
         ctx.ob(rid, 'IR:' + mod.head(x)[:120], src, False, 'no allocation in %s' % mod.head(x)[:100], detail={'sinks': sorted(s), 'reached_from': irreach.chain(mod, parent, x)},
                desc='allocation reachable in ' + re.sub(r'<.*', '', mod.head(x))[:80])
